@@ -51,6 +51,7 @@ func TestC10FullState(t *testing.T) {
 	maxA, maxB := 3, vk.Pick(1, 2)
 	shardedPhase(t, "C10", "C10/full-state-exchange", "E1-enum", "TestC10FullState", func(sh vk.Shard, rep *vk.Report) {
 		dInstallClock()
+		wanted := replayWanted()
 		deadline := vk.Deadline(150e9, 1200e9)
 		hA := histories(len(ops), maxA)
 		hB := histories(len(ops), maxB)
@@ -89,6 +90,24 @@ func TestC10FullState(t *testing.T) {
 								if caseNo%512 == 0 && timeUp(deadline) {
 									rep.Cap("deadline")
 									break outer
+								}
+								if wanted != nil {
+									var an0, bn0 []string
+									for _, oi := range ha {
+										an0 = append(an0, ops[oi].name)
+									}
+									for _, oi := range hb {
+										bn0 = append(bn0, ops[oi].name)
+									}
+									cand := map[string]any{"A_ops": an0, "B_ops": bn0, "A_gossip_lost_mask": lossA, "B_gossip_lost_mask": lossB, "mode": []string{"A->B", "B->A", "both"}[mode], "B_clock_offset": bOff}
+									cand2 := map[string]any{}
+									for k, v := range cand {
+										cand2[k] = v
+									}
+									cand2["snapshot_served_before_remote_changes"] = true
+									if !replayMatch(wanted, cand) && !replayMatch(wanted, cand2) {
+										continue
+									}
 								}
 								cases++
 								dResetClock()
